@@ -132,6 +132,20 @@ pub fn divide_segment_n2_instance_body<S: Src>(_s: &mut S) {
     std::mem::forget((nr, l, r, queue));
 }
 
+/// Known finding N2' (C13 "non-zero length"), concrete instance: the right end lies exactly one ulp to the right of the left
+/// end; dividing (0,5)-(ulp,3) at (0,3) bumps the division point onto the right end, so the right piece has zero length.
+pub fn divide_segment_n2prime_instance_body<S: Src>(_s: &mut S) {
+    let ulp: f64 = (0.0f64).nextafter(true);
+    let (p, q, i): (Coord<f64>, Coord<f64>, Coord<f64>) = (Coord { x: 0.0, y: 5.0 }, Coord { x: ulp, y: 3.0 }, Coord { x: 0.0, y: 3.0 });
+    register_points(&[w(p), w(q), w(i)]);
+    let (l, r) = seg(1, p, q, true);
+    let mut queue: BinaryHeap<Rc<SweepEvent<f64>>> = BinaryHeap::new();
+    divide_segment(&l, i, &mut queue);
+    let nl = r.get_other_event().unwrap();
+    assert!(nl.point != r.point, "C13 (N2'): the right piece of a division has non-zero length");
+    std::mem::forget((nl, l, r, queue));
+}
+
 /// C10 instance of the same corner in f32 (the clause of U-I3 "bumped by exactly one ulp", on concrete single-precision
 /// input): dividing (1,10)-(5,0) at (1,7) must place both new events at (nextafter(1), 7) -- one f32 ulp, not an f64 ulp.
 pub fn divide_segment_bump_f32_body<S: Src>(_s: &mut S) {
@@ -213,6 +227,14 @@ mod proofs {
     #[kani::unwind(8)]
     fn divide_segment_n2_instance() {
         divide_segment_n2_instance_body(&mut KaniSrc);
+    }
+
+    #[kani::proof]
+    #[kani::stub(robust::orient2d, orient2d_contract)]
+    #[kani::stub(std::collections::BinaryHeap::push, heap_push_recorder)]
+    #[kani::unwind(8)]
+    fn divide_segment_n2prime_instance() {
+        divide_segment_n2prime_instance_body(&mut KaniSrc);
     }
 
     #[kani::proof]
